@@ -198,9 +198,10 @@ divides = Contract(
     M + "FmtStr.divides", "C09", ["self"], kind="property",
     shapes=[Shape("any", dict(self=FmtT()))],
     ensures=_div_ensures, result=_div_result,
-    loops={0: Loop(inv=lambda L: [length(L.acc) == L.k + 1, L.acc[0] == 0,
+    loops={0: Loop(inv=lambda L: [length(S.as_int_seq(L.acc)) == L.k + 1, S.as_int_seq(L.acc)[0] == 0,
                                   lambda i: Implies(And(i >= 0, i < L.k),
-                                                    L.acc[i + 1] == L.acc[i] + length(T.ChunkS.s(T.FmtS.chunks(L.self)[i])))])})
+                                                    S.as_int_seq(L.acc)[i + 1] == S.as_int_seq(L.acc)[i] +
+                                                    length(T.ChunkS.s(T.FmtS.chunks(L.self)[i])))])})
 # the callee form of divides also gives ds[n] == total length; that closed form is an instance of the
 # fold lemma "sum of lengths = length of concat" (lean/Lemmas.lean), not re-proved per run.
 
